@@ -174,7 +174,18 @@ pub fn random_op(r: &mut Rng, nch: u64, v: &mut Vec<i64>) {
     let kind = r.pick(&[0i64, 0, 0, 1, 5]);
     let c = r.below(nch) as i64;
     let val = if r.chance(1, 3) { r.pick(&[0i64, 1, 127]) } else { r.below(128) as i64 };
-    match r.below(24) {
+    match r.below(26) {
+        24 => {
+            // a system message whose data bytes look like (N)RPN traffic (its low status nibble
+            // is a "channel" only to a scanner that forgets to check the message category)
+            let s = r.pick(&[241i64, 242, 242, 243, 240, 244, 247, 248, 254]);
+            v.extend_from_slice(&[kind, s, r.pick(&PN_CNS), val]);
+        }
+        25 => {
+            // a non-Control-Change channel message whose data bytes look like (N)RPN traffic
+            let s = r.pick(&[128i64, 144, 160, 192, 208, 224]) + c;
+            v.extend_from_slice(&[kind, s, r.pick(&PN_CNS), val]);
+        }
         0 => v.extend_from_slice(&[2, 0, 0, 0]),
         1 => {
             let s = 128 + r.below(128) as i64;
@@ -318,7 +329,7 @@ const ABS: [[i64; 4]; 14] = [
     [0, 177, 99, 10],
     [0, 177, 6, 11],
     [2, 0, 0, 0],
-    [0, 250, 0, 0],
+    [0, 242, 6, 12],
 ];
 
 pub fn gen_c11(tier: Tier, seed: u64, em: &mut Emitter) {
